@@ -346,3 +346,14 @@ func ParallelFor(n int, f func(i int)) {
 
 // Q quotes a byte string compactly for messages and keys.
 func Q(s string) string { return strconv.QuoteToASCII(s) }
+
+// Try runs f and reports a panic as (true, message) instead of crashing the check.
+func Try(f func()) (panicked bool, msg string) {
+	defer func() {
+		if r := recover(); r != nil {
+			panicked, msg = true, fmt.Sprint(r)
+		}
+	}()
+	f()
+	return false, ""
+}
